@@ -86,6 +86,10 @@ var applyUnit = ev.Unit[ApplyCase]{
 	Name: "apply-order",
 	Rule: "as C01 (state-aware operation sequences over documents with index-like/escaped names and exotic number literals), default options; oracle: output EqualOrdered (member order and number literals significant) to the ordered reference result; non-trivial = all operations apply and (an operation created/removed/replaced a member of an object that had >=2 other members, or a number literal that float64 formatting would not reproduce survives into the output)",
 	Draw: func(t *rapid.T) ApplyCase {
+		if gen.OneIn(t, 150, "bulk") {
+			d, ops, _ := gen.Bulk(t)
+			return ApplyCase{Doc: d.Text(false), Patch: ref.OpsText(ops, false)}
+		}
 		doc := gen.Default.Root().Draw(t, "doc")
 		g := gen.NewOpGen(true).Calm()
 		if gen.OneIn(t, 4, "noisy") {
@@ -236,6 +240,10 @@ var mergeUnit = ev.Unit[MergeCase]{
 	Name: "merge-order",
 	Rule: "object document x object merge patch obtained by mutating the document (shared names, deletions, additions, recursion, type changes); oracle: value = RFC 7396 result with number literals intact, and at every object present in both document and output the surviving members keep document order ahead of new ones (order among new members is unspecified); non-trivial = an object with >=2 surviving members also gains or loses a member, or an exotic number survives",
 	Draw: func(t *rapid.T) MergeCase {
+		if gen.OneIn(t, 150, "bulk") {
+			d, _, m := gen.Bulk(t)
+			return MergeCase{Doc: d.Text(false), Patch: m.Text(false)}
+		}
 		doc := gen.WithEmptyName.Object(3).Draw(t, "doc")
 		patch := gen.WithEmptyName.Mutate(t, doc, 2)
 		if gen.OneIn(t, 5, "indep") {
